@@ -12,7 +12,7 @@ DESIGN_REF = "DESIGN.md §5 C36"
 
 def build(name, N, wf, **kw):
     d = dict(name=name, harness="C36_query_build.c", entry="harness_build",
-             defines=["C36_N=%d" % N] + (["C36_ONLY_WELLFORMED"] if wf else []),
+             defines=["C36_N=%d" % N, "C36_TAIL"] + (["C36_ONLY_WELLFORMED"] if wf else []),
              unwind=N + 4, timeout=600, mem_gb=6,
              desc="evdns_request_data_build on every %sname of <= %d arbitrary bytes, symbolic id/type/class/max_udp_size, exact-size buffer: well-formed query for that name%s"
                   % ("encodable " if wf else "", N, "" if wf else "; unencodable names refused"))
@@ -29,7 +29,17 @@ def longn(name, full, last, wf=False, **kw):
                   % (full, ", name limit wire 255" if full >= 3 else ""))
     d.update(kw); return d
 
+def reqnew(name, N, wf, **kw):
+    d = dict(name=name, harness="C36_query_build.c", entry="harness_request_new", sources=["evutil.c", "strlcpy.c"],
+             defines=["C36_N=%d" % N, "C36_LITERAL_ALLOC"] + (["C36_ONLY_WELLFORMED"] if wf else []), unwind=N + 4, timeout=600, mem_gb=6,
+             desc="request_new on a constructed evdns_base, every %sname <= %d bytes, symbolic randomize_case/random bits/EDNS/issue-now: query == requested name ignoring case, id, type, class IN" % ("encodable " if wf else "", N))
+    d.update(kw); return d
+
 def obligations(tier):
-    obs = [build("build_wf_N6", 6, True), build("build_all_N6", 6, False),
-           longn("long_f0_63", 0, 63), longn("long_f0_64", 0, 64), longn("long_f3_61", 3, 61), longn("long_f3_62", 3, 62)]
+    if tier == "quick":
+        obs = [build("build_wf_N6", 6, True), build("build_all_N6", 6, False), reqnew("request_new_wf_N3", 3, True)]
+    else:
+        obs = [build("build_wf_N8", 8, True), build("build_all_N8", 8, False),
+               reqnew("request_new_wf_N4", 4, True, timeout=1200), reqnew("request_new_all_N3", 3, False),
+               longn("long_f0", 0, None, mem_gb=10, timeout=1500)]
     return obs
